@@ -32,7 +32,7 @@ LEVEL_TEXT = ("Machine-checked Lean proof, for every weight vector and every sta
 LEVEL_NOTE = ("Reading: `scaled weight` is the uint16 the code computes; its relation to the input weights is proved for exact "
               "rational arithmetic and monitored on the float code (entries may differ by 1 only when 65535*w/max is within "
               "2^-20 of a rounding boundary). The statement's `at most n sequence numbers` and `any window` are violated by the "
-              "unchanged code only across the uint32 wrap of picker.idx (which starts at rand.Uint32()): known finding C36-W1. "
+              "unchanged code only across the uint32 wrap of picker.idx (which starts at rand.Uint32()): known finding F8b. "
               "Weights that are negative, NaN or infinite are outside the model (the float code gives garbage scaled weights).")
 GAP = ("float rounding of the scaling/weight formula is not reasoned about in Lean (diffed bit-for-bit against the Float "
        "instance and bounded by the monitor); concurrency of Pick against regenerateScheduler (atomic pointer swap) is not modelled")
@@ -174,7 +174,7 @@ def gen(rng, tier):
     big_n = {"quick": 12, "thorough": 64, "search": 32}[tier]
 
     ops = []
-    # the no-wrap twin of the witness of known finding C36-W1
+    # the no-wrap twin of the witness of known finding F8b
     ops.append("win 1,1,65535 10 20")
     # full windows: exact proportion
     for j in range(n_full):
@@ -204,7 +204,7 @@ def gen(rng, tier):
         yield Case("wrrstride", ops[i:i + chunk], "stateless-batch-%d" % (i // chunk))
 
     # windows that contain the uint32 wrap of the counter, one case each (the unchanged code is expected to
-    # break "at most n" / "exactly w_i" only here: known finding C36-W1); a batch would hide later violations
+    # break "at most n" / "exactly w_i" only here: known finding F8b); a batch would hide later violations
     # behind the first one
     yield Case("wrrstride", ["win 1,1,65535 4294967294 20"], "wrap-witness")
     n_wrap_short = {"quick": 60, "thorough": 1500, "search": 600}[tier]
